@@ -66,7 +66,7 @@ OtherTerminals == {"nl", ",", ":", "::", "=", "==", "(", ")", ")+", "-(", "@", "
 Terminals == AtomClasses \cup InfixClasses \cup OtherTerminals \cup {"fault:" \o k : k \in FaultKinds}
 
 MaxStmts == 60
-CharSetSize == 32          \* the character set of section 4 (the renderer's list)
+CharSetSize == 31          \* the character set of section 4 (31 characters; the list is in harness/grammar.py)
 
 (* ---- productions: nonterminal (with depth d) -> set of right-hand sides ---- *)
 Deeper(d) == d < MaxDepth
